@@ -6,6 +6,16 @@ HERE = os.path.dirname(os.path.dirname(os.path.abspath(__file__)))
 sys.path.insert(0, HERE)
 
 CLAIMED = {
+ 'C02': dict(
+    level='other', ref='DESIGN.md 4 C02',
+    technique='ast symbolic walk with constant-loop unrolling and local substitution to extract the flag/field tables, compared per bit; def-use and who-reads/who-verifies rules; guard dominance with linear atoms',
+    text='Decides the flag-table and plumbing clauses of C02 that a sampled test cannot (an error confined to one bit passes the suite): bit<->field bijection of the message builder and of the template check, per-bit subset check of the allowed-flags operand with equal masks before verification, one message builder shared by sign and check and fed the right flag byte, length guards dominating verification, and the true/false result mapping around verify. Ed25519 validity itself and corruption soundness are cryptographic and not decided.',
+    note='Trusted: CPython ast, tsa analyser, PyNaCl verify/sign, nacl.bindings length constants (32/64). Stack items assumed bytes (C07.R1).'),
+ 'C03': dict(
+    level='other', ref='DESIGN.md 4 C03',
+    technique='ast CFG rules on OP_CHECK_MULTISIG: success-edge consumption of the matched key (must-pass-through), exact verdict condition by linear-atom equivalence, operand-order agreement across VM / compiler / decompiler',
+    text='Decides the structural clauses of the threshold claim: on the success edge of the inner check the matched key leaves the candidate set before the next signature (so two signatures by one key cannot both count), confirmed signatures are a set grown only on that edge, true is put exactly when all m are confirmed, (flags, m, n) order agrees between VM, compiler and decompiler, and the inner check gets the rewound allowed-flags tape. Order independence rests on a cryptographic fact and is not decided.',
+    note='Trusted: CPython ast, tsa analyser.'),
  'C06': dict(
     level='other', ref='DESIGN.md 4 C06',
     technique='ast typestate invariant over all sub-tape handlers (return-flag scoping), alias/copy classification of EVAL sub-tape fields, cross-table agreement query (VM table vs docs.md vs language_spec.md vs compiler/decompiler case labels)',
@@ -46,6 +56,11 @@ CLAIMED = {
     technique='interprocedural write-effect summaries (fixpoint over the call graph) used for an iteration/mutation conflict rule, a who-may-write rule for the module-level registries with call-graph unreachability from run/compile entry points, guard dominance for set semantics, and a mutable-default escape rule',
     text='Decides the history channels of C19 on the source: no collection is structurally mutated while iterated (directly or via callees), registries are written only by the add_/remove_/reset_ API and no run/compile entry point or handler can reach a writer, the API has insert-if-absent / delete-if-present shape, no mutable default that a caller can take is mutated through forwarding, and the embedder dictionaries are only read or copied. Set semantics over arbitrary histories (e.g. interfaces keyed by __name__) is not decided.',
     note='Trusted: CPython ast, tsa analyser; call graph = direct calls through resolved names plus run_tape dispatch to every registered handler.'),
+ 'C20': dict(
+    level='other', ref='DESIGN.md 4 C20',
+    technique='table evaluation from the module body (dispatch totality over 0..255), effect-set extraction of the NOP handler, sibling cross-check of the one-byte operand across VM / compiler / decompiler / generated soft-fork handlers, coherence rule for add_opcode',
+    text='Decides the structural clauses of C20: the op and NOP tables partition all 256 byte values and run_tape falls back to the NOP table, NOP has exactly the effect set {read one signed byte, guard count >= 0, pop count items}, every party (VM, compiler, decompiler, both generated soft-fork handlers) agrees on exactly one operand byte, and add_opcode / add_soft_fork keep the four tables and the parsing handlers coherent. Upgraded-vs-old VM verdict equivalence needs the semantics of the forked op and is not decided.',
+    note='Trusted: CPython ast, tsa analyser (restricted constant evaluator for the module-level tables).'),
  'C01': dict(
     level='other', ref='DESIGN.md 4 C01',
     technique='ast typestate + dominator analysis (return-flag state machine over the CFG of run_auth_scripts/run_tape; try/except coverage; guard dominance)',
